@@ -75,7 +75,7 @@ def evaluate_all(pol, env, td0, leaves, eval_kw="actions", phase="test"):
     return res
 
 
-def reference_steps(pol, env, td0, h):
+def reference_steps(pol, env, td0, h, ents=None):
     """per-step log-prob of the taken action from the decoder's raw logits and mask (ConstructivePolicy protocol)"""
     td = env.reset(td0.clone())
     with torch.no_grad(), Seam(tile_rows=True).active():
@@ -91,6 +91,9 @@ def reference_steps(pol, env, td0, h):
             lg = lg.masked_fill(~mask.reshape(1, -1), float("-inf"))
             lp = lg - torch.logsumexp(lg, dim=-1, keepdim=True)
             out.append(float(lp[0, a]))
+            if ents is not None:
+                pr = lp.exp()
+                ents.append(float(-(pr * lp.masked_fill(pr == 0, 0.0)).sum()))
             td.set("action", torch.tensor([a]))
             E._set_bs(env, 1)
             td = env.step(td)["next"]
@@ -216,7 +219,7 @@ def unit(item):
                 try:
                     with torch.no_grad(), Seam(tile_rows=True).active():
                         E._set_bs(env, Bm * k)
-                        o = pol(td, env, phase=phase, decode_type=dt, num_starts=k)
+                        o = pol(td, env, phase=phase, decode_type=dt, num_starts=k, return_entropy=True)
                 except Exception as e:  # noqa: BLE001
                     p.note(f"{pkey} x {skey}: {dt} with num_starts={k} not runnable here ({type(e).__name__}: {str(e)[:80]}) - start-node rules are C12's business")
                     continue
@@ -234,6 +237,19 @@ def unit(item):
                         continue  # padded rows carry the log-probs of their padding steps; compared in C12/C04 instead
                     check_rollout(f"{dt}", acts, float(o["log_likelihood"][r]), float(o["reward"][r]), None, skip_first=1)
                     p.add(evaluations=1)
+                    # entropy of a multi-start rollout: the forced first move contributes zero, every later step the entropy
+                    # of its masked step distribution (re-derived from the decoder's raw logits)
+                    if "entropy" in o.keys() and not train and tuple(acts) in ev:
+                        ents = []
+                        try:
+                            reference_steps(pol, env, td0, tuple(acts), ents)
+                        except Exception:  # noqa: BLE001
+                            ents = None
+                        if ents:
+                            want_e = sum(ents[1:])
+                            got_e = float(o["entropy"][r])
+                            if abs(got_e - want_e) > 1e-3 * (1 + abs(want_e)):
+                                p.violation(sig(pkey, skey, "entropy", f"{dt}|{mode}"), dict(kind="c11", policy=pkey, spec=skey, instance_id=iid, instance=inst, wseed=wseed, train=train, temp=temp, what=dt, actions=list(acts)), f"{pkey} x {skey} {iid} ({mode}): {dt} returned entropy {got_e:.6f} for {list(acts)}; the step entropies after the forced first move sum to {want_e:.6f}")
         p.sample(dict(policy=pkey, env=skey, instance=iid, mode=mode, complete_sequences=len(ev), sampled_sequences=len(sampled)), cap=1)
     return p
 
@@ -303,7 +319,33 @@ def unit_stepwise(item):
     return p
 
 
+def unit_rounds(item):
+    """Step-wise PPO trainer over consecutive batches: at the first evaluation of every stored mini-batch in EVERY round
+    (before the round's first optimiser step) the recomputed log-probabilities must equal the ones recorded at acting time,
+    i.e. the PPO probability ratio starts at exactly one in every round, not only in the first."""
+    from ..stepwise import run_stepwise
+
+    _, env_name, temp, tier, seed = item
+    p = Partial()
+    rec = dict(kind="c11_rounds", env_name=env_name, temp=temp)
+    try:
+        obs = run_stepwise(env_name, reward_scale=None, rounds=3 if tier == "quick" else 5, seed=seed, temperature=temp)
+    except Exception as e:  # noqa: BLE001
+        p.violation(sig("l2d4ppo", env_name, f"crash:{type(e).__name__}", "training_round"), rec, f"StepwisePPO({env_name}): a training round raised {type(e).__name__}: {str(e)[:120]}")
+        return p
+    for k, d in enumerate(obs["rounds"]):
+        p.add(states=1, transitions=1, evaluations=1, distinct_count=1, traces_validated_against_impl=1)
+        p.outcome(f"rounds|{env_name}|{k}|{'one' if d is not None and d <= 1e-5 else 'off'}")
+        if d is None or d > 1e-5:
+            p.violation(sig("l2d4ppo", env_name, "ratio_not_one", "first_round" if k == 0 else "later_round"), dict(rec, round=k), f"StepwisePPO({env_name}, T={temp}) round {k}: before the round's first optimiser step the stored and recomputed log-probabilities differ by {d} (the probability ratio does not start at one)")
+            break
+    p.sample(dict(policy="l2d4ppo trainer rounds", env=env_name, rounds=len(obs["rounds"])), cap=1)
+    return p
+
+
 def dispatch(item):
+    if item[0] == "rounds":
+        return unit_rounds(item)
     return unit_stepwise(item) if item[0] == "stepwise" else unit(item)
 
 
@@ -334,6 +376,9 @@ def main(tier):
         for temp in (1.0, 2.0) if tier == "quick" else (1.0, 2.0, 0.5):
             if not only or only in f"l2d4ppo|{skey}":
                 items.append(("stepwise", skey, tier, seed, temp))
+    for env_name in ("fjsp", "jssp"):
+        if not only or only in f"l2d4ppo|rounds|{env_name}":
+            items.append(("rounds", env_name, 1.0, tier, seed))
     rep.merge_all(pmap(dispatch, items))
     rep.extra["pairs"] += [f"l2d4ppo(act/evaluate)x{k}" for k in ("fjsp:mask", "jssp:mask", "fjsp:wait")]
     return rep.finish()
@@ -341,6 +386,9 @@ def main(tier):
 
 def replay(rec):
     spec = ALL_SPECS[rec["spec"]]
+    if rec.get("kind") == "c11_rounds":
+        p = unit_rounds(("rounds", rec["env_name"], rec["temp"], "quick", 0))
+        return bool(p.violations), "; ".join(v["msg"] for v in p.violations[:2]) or "the ratio starts at one in every round"
     if rec.get("kind") == "c11_stepwise":
         import mc.checks.c11 as me
 
